@@ -7,9 +7,13 @@ use std::panic::{catch_unwind, AssertUnwindSafe};
 mod util;
 mod ops_pattern;
 mod ops_summary;
+mod ops_distinfo;
 
 fn run(op: &str, args: &[&str]) -> String {
     if let Some(r) = ops_pattern::run(op, args) {
+        return r;
+    }
+    if let Some(r) = ops_distinfo::run(op, args) {
         return r;
     }
     if let Some(r) = ops_summary::run(op, args) {
